@@ -103,7 +103,41 @@ def c03(chk, thorough):
         chk.broke('no decomposing column site in pls.c (the residual loop), floor 1')
 
 
+def c05(chk, thorough):
+    from . import cv, threads, layout
+    chk.explanation = (
+        'Decides the structural clauses of C05: (CV1) every CV routine dispatches a worker for every learner its siblings '
+        'dispatch; (T3) every created thread is joined and vice versa; (CV3) the split code is a partition by control '
+        'dependence (train under "!= selector", test under "== selector", same source row) in kfold_group_train_test_split and '
+        'in the leave-one-out copy loop; (CV2) the held-out selector is the value that places the prediction; (CV4) in all 8 '
+        'workers the fit sees only training x/y, the predictor only test x, test y reaches neither; (CV6) the random group '
+        'generator stores only ids that left the rejection loop as "not present" and has >= nobj cells; (LY) residual = '
+        'prediction - matching response column. NOT decided: equality with a model refitted through the public API, '
+        'finiteness of predictions, that the group matrix content is a permutation, averaging arithmetic.')
+    chk.assumptions = ['train/test/selector roles are derived from the control dependence of kfold_group_train_test_split itself',
+                       'fit entry points are PLS/MLR/EPLS/LDA with (x, y) as first two arguments']
+    prog = load_program(chk, ['modelvalidation.c', 'pls.c'])
+    ents = threads.thread_entries(prog)
+    cv.cv1(chk, prog)
+    threads.t3(chk, prog, only_funcs=set(cv.CV_ROUTINES))
+    roles = cv.derive_split_roles(chk, prog)
+    if roles is not None:
+        fields = cv.cv4(chk, prog, roles, ents)
+        loo_sel = cv.cv3_inline_loo(chk, prog, fields)
+        cv.cv2(chk, prog, roles, fields, loo_sel)
+    cv.cv6(chk, prog)
+    layout.run(chk, prog, {'modelvalidation.c': layout.FUNCTIONS['modelvalidation.c']})
+    chk.floor('CV1.dispatch', 12)
+    chk.floor('T3.create-join', 3)
+    chk.floor('CV3.partition', 6)
+    chk.floor('CV4.no-leak', 8)
+    chk.floor('CV2.held-out-index', 6)
+    chk.floor('CV6.fresh-id', 2)
+    chk.floor('LY.decompose', 3)
+
+
 CHECKS = {
+    'C05': c05,
     'C03': c03,
     'C18': c18,
     'C06': c06,
